@@ -482,9 +482,9 @@ def own_variants(lines, impl):
             continue
         wrap, base = unwrap_type(f[1])
         t = parse_term(o)
-        if wrap in (0, 1) and t[0] == "v":
+        if wrap == 0 and t[0] == "v":
             own.setdefault(base, set()).add(t[1])
-        if wrap in (2, 3) and t[0] == "a":
+        if wrap == 2 and t[0] == "a":
             own_arr.setdefault(base, set()).add(t[1])
     return own, own_arr
 
@@ -564,6 +564,9 @@ def oracle_one(case, out, own, own_arr):
         o = own.get(base) if wrap in (0, 1) else own_arr.get(base)
         if o and len(o) != 1:
             return "Value::from::<%s> builds different variants: %s" % (f[1], sorted(o))
+        if o and parse_term(out)[1] not in o:
+            return "Value::from(%s: %s) = %s is not of the variant Value::from::<%s> builds (%s)" % (
+                f[2], f[1], out, base, sorted(o))
     elif op == "null":
         wrap, base = unwrap_type(f[1])
         o = own.get(base) if wrap == 0 else own_arr.get(base)
